@@ -803,7 +803,7 @@ pub fn cmd_panics(args: &Args) -> J {
     use crate::world::Key;
     let seed = args.num("seed", 1);
     let cases = args.num("cases", 10);
-    let families: Vec<String> = args.str("families", "mixed,conf,lifecycle,precompile").split(',').map(|s| s.to_owned()).collect();
+    let families: Vec<String> = args.str("families", "mixed,conf,invalid,lifecycle,precompile").split(',').map(|s| s.to_owned()).collect();
     let max_txs = args.num("max-txs", 7) as usize;
     let max_keys = args.num("max-keys", 6) as usize;
     let mut divergences = Vec::new();
@@ -835,11 +835,16 @@ pub fn cmd_panics(args: &Args) -> J {
             let mut pb = block.clone();
             pb.db.panic_key = Some(key.clone());
             distinct.insert(format!("{family}/{case}/{key:?}"));
-            for round in 0..4 {
+            for round in 0..6 {
+                // rounds 4 and 5: the database panics only once (a panic that does not recur when
+                // the block is replayed sequentially must still reach the caller)
+                pb.db.panic_once = round >= 4;
                 let workers = 2 + (round % 2);
                 let cfg = RunCfg::parallel(workers);
                 let sched = if round < 1 { None } else { Some((strategy_of(["random", "pct", "sticky"][round % 3], &mut Rng::new(rr.next())), rr.next())) };
-                let run = world::run_grevm(&pb, &cfg, sched.clone());
+                let state = grevm::ParallelState::new(pb.db.clone(), true, false);
+                let (run, state_after) = world::run_grevm_on(&pb, &cfg, sched.clone(), state);
+                let raised = state_after.as_ref().map_or(0, |s| s.database.panics_raised.load(std::sync::atomic::Ordering::SeqCst));
                 runs += 1;
                 let mut verdict = None;
                 if let Some(stall) = run.report.as_ref().and_then(|r| r.stall.clone()) {
@@ -852,6 +857,12 @@ pub fn cmd_panics(args: &Args) -> J {
                             } else {
                                 verdict = Some(("oracle", format!("the panic that reached the caller is not the original one: {msg:?}")));
                             }
+                        }
+                        None if raised > 0 => {
+                            verdict = Some(("oracle", format!(
+                                "the database panicked {raised} time(s) inside the scheduler but execute() returned {:?} with {} outcomes: the panic did not reach the caller",
+                                run.result.status, run.result.outcomes.len()
+                            )));
                         }
                         None => {
                             // nobody read the key (e.g. a read the parallel path avoids): normal result
